@@ -170,3 +170,56 @@ pub fn list_dir(p: &Path) -> Vec<String> {
     v.sort();
     v
 }
+
+/// Number of copy instructions with an encoded size of 0 (= 0x10000 bytes) in the delta stored at `offset` of `pack`
+/// (harness-side scan: own header parser, zlib via gix_features, own instruction walker). 0 for non-delta entries.
+pub fn size0_copies(pack: &[u8], offset: u64) -> usize {
+    let mut i = offset as usize;
+    let mut b = pack[i];
+    i += 1;
+    let ty = (b >> 4) & 7;
+    let mut size = (b & 15) as u64;
+    let mut shift = 4;
+    while b & 0x80 != 0 {
+        b = pack[i];
+        i += 1;
+        size |= ((b & 127) as u64) << shift;
+        shift += 7;
+    }
+    match ty {
+        6 => {
+            while pack[i] & 0x80 != 0 {
+                i += 1;
+            }
+            i += 1;
+        }
+        7 => i += 20,
+        _ => return 0,
+    }
+    let mut d = vec![0u8; size as usize];
+    let mut inflate = gix_features::zlib::Inflate::default();
+    if let Err(e) = inflate.once(&pack[i..], &mut d) {
+        vkit::machinery!("cannot inflate delta at {offset}: {e}");
+    }
+    let mut j = 0usize;
+    for _ in 0..2 {
+        while d[j] & 0x80 != 0 {
+            j += 1;
+        }
+        j += 1;
+    }
+    let mut n = 0;
+    while j < d.len() {
+        let cmd = d[j];
+        j += 1;
+        if cmd & 0x80 != 0 {
+            if cmd & 0x70 == 0 {
+                n += 1;
+            }
+            j += (cmd & 0x7f).count_ones() as usize;
+        } else {
+            j += cmd as usize;
+        }
+    }
+    n
+}
